@@ -15,6 +15,10 @@ CHECKS = {
    technique="explicit-state BFS to fixpoint over operation programs on the real rewindable input handle (canonical keys read through a hook, validated by probe suffixes) + deviation-bounded schedule exploration of detection over bounded-exhaustive inputs",
    text="(A) every reachable state of the input handle for data sizes 0..n under 5 source answer patterns, every borrow program up to the op bound from each state, both ways of taking ownership from each state, checked against a byte-string+offset reference model; (B) for every corpus input and every read schedule within the deviation bound: detection never errs, undetected inputs fail with exactly 'unable to detect input format', detected inputs behave exactly (verdict, bytes, error text) like the explicit run, slice and reader detect the same format for translatable inputs.",
    note="Trusted: hook HandleProbe only forwards to the private Handle/Ref/CaptureReader API; explicit-format runs are schedule-independent (checked by C02), so two fixed policies serve as explicit references; known-finding classes are recomputed per case."),
+ "C10": dict(cat="exploration", design="4.10",
+   technique="bounded-exhaustive enumeration of collection-rooted documents written by xt itself, detection re-run from slice and under deviation-bounded read schedules, exception predicate decided by independent readers",
+   text="Every enumerated collection-rooted document/stream, written by xt in each format, is detected as that format from a slice and from a reader under every schedule within the bound, and translating it without -f equals translating it with -f; TOML outputs that an earlier trial also accepts (own JSON reader / own YAML reader decide) are counted as the documented exception.",
+   note="Trusted: the harness's JSON reader and libyaml-event YAML reader for the exception predicate. Documents beyond the enumerated families are not covered."),
  "C12": dict(cat="fault_enumeration", design="4.12",
    technique="exhaustive fault-point enumeration on the real library: reader fails at every byte offset, writer fails at every output byte, deviation-bounded short-write and read-schedule exploration, flush failure",
    text="For every corpus input, source selection and target: a reader failing at EVERY offset k (including in place of EOF) yields Err with the reader's text and only complete fault-free documents before it; a writer failing at EVERY k yields Err with accepted bytes a prefix of the fault-free output; every short-write schedule within the bound yields exactly the fault-free output; flush errors are forwarded.",
